@@ -189,7 +189,15 @@ def run_fault(case: dict) -> Outcome:
         out.cls("fault-not-reached")
         out.nontrivial = False
         return out
-    if ref.horizon_hit or tr.horizon_hit:
+    if tr.horizon_hit and not ref.horizon_hit:
+        # the same scenario finished well inside the horizon without the fault, and with it the worker was still not done 15 s of
+        # simulated time after the model's estimate: the failed store stopped it (or part of it)
+        undone = [j["id"] for j in case["jobs"] if len(tr.execs_of(j["id"])) < len(ref.execs_of(j["id"]))]
+        out.v("worker-stalled-after-store-failure", f"without the fault the scenario settled at t={ref.final_t:.3f}; with result store call "
+              f"{case['fault_store_call']} failing it ran into the horizon {case.get('horizon')}: executions missing for {undone}",
+              missing=bool(undone))
+        return out
+    if ref.horizon_hit:
         out.inconclusive = True
         return out
     if tr.run_error is not None:
